@@ -295,6 +295,14 @@ def c04_cells(tier="quick"):
                 {"id": "s0", "workers": ["w0", "w1"], "n": 1, "kind": "exact"}], requirements=[
                 {"task": "t0", "resource": "s0"}, {"task": "t1", "resource": "w0"}],
             constraints=[dict({"id": "c", "kind": kind, "resource": "w0"}, **extra)])))
+    # sorting-based constraints on a worker that several selections may leave unselected
+    for kind, extra in (("ResourceNonDelay", {}), ("ResourceTasksDistance", {"distance": 1, "mode": "min"})):
+        cells.append((f"{kind}.via_two_selections", base(
+            5, [fx("t0", 1), fx("t1", 1), fx("t2", 2)], workers=W, selections=[
+                {"id": "s0", "workers": ["w0", "w1"], "n": 1, "kind": "exact"},
+                {"id": "s1", "workers": ["w0", "w1"], "n": 1, "kind": "exact"}], requirements=[
+                {"task": "t0", "resource": "s0"}, {"task": "t1", "resource": "s1"}, {"task": "t2", "resource": "w0"}],
+            constraints=[dict({"id": "c", "kind": kind, "resource": "w0"}, **extra)])))
     # SameWorkers / DistinctWorkers
     W3 = [{"name": "w0"}, {"name": "w1"}, {"name": "w2"}]
     for kind in ("SameWorkers", "DistinctWorkers"):
